@@ -73,7 +73,7 @@ MODEL_ARGS = {
     "calc_field_krige": lambda: dict(krig_mat=Z((2, 2)), krig_vecs=Z((2, 3)), cond=Z(2)),
     "calc_field_krige_and_variance": lambda: dict(krig_mat=Z((2, 2)), krig_vecs=Z((2, 3)), cond=Z(2)),
     "unstructured": lambda: dict(f=Z((1, 3)), bin_edges=Z(4), pos=Z((1, 3))),
-    "directional": lambda: dict(f=Z((1, 3)), bin_edges=Z(4), pos=Z((2, 3)), direction=Z((2, 2))),
+    "directional": lambda: dict(f=Z((1, 3)), bin_edges=Z(4), pos=Z((2, 3)), direction=Z((1, 2))),
     "structured": lambda: dict(f=Z((4, 2))),
     "ma_structured": lambda: dict(f=Z((4, 2)), mask=Z((4, 2), dtype=np.uint8)),
 }
@@ -93,7 +93,7 @@ MODEL_ARGS_BIG = {
     "calc_field_krige": lambda: dict(krig_mat=Z((3, 3)), krig_vecs=Z((3, 4)), cond=Z(3)),
     "calc_field_krige_and_variance": lambda: dict(krig_mat=Z((2, 2)), krig_vecs=Z((2, 4)), cond=Z(2)),
     "unstructured": lambda: dict(f=Z((2, 3)), bin_edges=Z(4), pos=Z((1, 3))),
-    "directional": lambda: dict(f=Z((1, 3)), bin_edges=Z(5), pos=Z((2, 3)), direction=Z((1, 2))),
+    "directional": lambda: dict(f=Z((1, 3)), bin_edges=Z(4), pos=Z((2, 3)), direction=Z((2, 2))),
     "structured": lambda: dict(f=Z((5, 2))),
     "ma_structured": lambda: dict(f=Z((5, 1)), mask=Z((5, 1), dtype=np.uint8)),
 }
@@ -1025,43 +1025,56 @@ def callers_check(rep, seed, interp0):
     rep.traces += n
     # generator call = documented formula applied to the kernel sum over the generator's own samples
     g = np.random.default_rng(seed + 1)
-    for d in (1, 2, 3):
-        pos = g.uniform(-4, 4, size=(d, 11))
-        try:
-            rm = gen.RandMeth(gs.Exponential(dim=d, var=2.25, len_scale=0.8), mode_no=12, seed=seed % 977)
-            got = rm(pos)
-            want = math.sqrt(2.25 / 12) * rewriter.call(interp0.summate, rm._cov_sample, rm._z_1, rm._z_2, pos)
-            ok = close(got, want, 1e-12)
-            what = "RandMeth(pos) != sqrt(var/N) * summate(own samples)"
-            key = "caller:RandMeth:kernel-relation"
-            if ok and d >= 2:
-                im = gen.IncomprRandMeth(gs.Gaussian(dim=d, var=0.25, len_scale=1.3), mean_velocity=2.0, mode_no=12, seed=seed % 977)
-                got = im(pos)
-                e1 = np.zeros((d, 1))
-                e1[0] = 1.0
-                want = 2.0 * e1 + 2.0 * math.sqrt(0.25 / 12) * rewriter.call(interp0.summate_incompr, im._cov_sample, im._z_1, im._z_2, pos)
-                ok = close(got, want, 1e-12)
-                what = "IncomprRandMeth(pos) != mean*e1 + mean*sqrt(var/N) * summate_incompr(own samples)"
-                key = "caller:IncomprRandMeth:kernel-relation"
-            if ok and d <= 2:
-                fm = gen.Fourier(gs.Gaussian(dim=d, var=1.0, len_scale=1.3), period=[6.0] * d, mode_no=[4] * d, seed=seed % 977)
-                got = fm(pos)
-                want = rewriter.call(interp0.summate_fourier, fm._spectrum_factor, fm._modes, fm._z_1, fm._z_2, pos)
-                ok = close(got, want, 1e-12)
-                what = "Fourier(pos) != summate_fourier(own samples)"
-                key = "caller:Fourier:kernel-relation"
-        except AttributeError as e:
-            rep.note("generator internals renamed (%s): generator-vs-kernel relation not checked" % e)
-            break
-        except (IndexError, ValueError, ZeroDivisionError, TypeError) as e:
-            # the interpreted source fails on a valid input: already a violation of the kernel comparison
-            rep.note("generator-vs-kernel relation not evaluated in dim %d: the interpreted kernel raised %r" % (d, e))
-            continue
-        rep.count(1)
-        rep.traces += 1
-        if not ok:
-            rep.violation(key, "dim %d: %s (interpreted current .pyx as the kernel): got %s, want %s" % (d, what, _short(got), _short(want)),
-                          {"kind": "caller-relation", "dim": d, "seed": seed, "got": got, "want": want})
+
+    def rel_randmeth(d, modes):
+        rm = gen.RandMeth(gs.Exponential(dim=d, var=2.25, len_scale=0.8), mode_no=modes, seed=seed % 977)
+        return rm, (lambda pos: rm(pos)), (lambda pos: math.sqrt(2.25 / modes) * rewriter.call(
+            interp0.summate, rm._cov_sample, rm._z_1, rm._z_2, pos)), "RandMeth(pos) != sqrt(var/N) * summate(own samples)"
+
+    def rel_incompr(d, modes):
+        im = gen.IncomprRandMeth(gs.Gaussian(dim=d, var=0.25, len_scale=1.3), mean_velocity=2.0, mode_no=modes, seed=seed % 977)
+        e1 = np.zeros((d, 1))
+        e1[0] = 1.0
+        return im, (lambda pos: im(pos)), (lambda pos: 2.0 * e1 + 2.0 * math.sqrt(0.25 / modes) * rewriter.call(
+            interp0.summate_incompr, im._cov_sample, im._z_1, im._z_2, pos)), \
+            "IncomprRandMeth(pos) != mean*e1 + mean*sqrt(var/N) * summate_incompr(own samples)"
+
+    def rel_fourier(d, modes):
+        fm = gen.Fourier(gs.Gaussian(dim=d, var=1.0, len_scale=1.3), period=[6.0] * d, mode_no=[4 if modes < 100 else 12] * d, seed=seed % 977)
+        return fm, (lambda pos: fm(pos)), (lambda pos: rewriter.call(
+            interp0.summate_fourier, fm._spectrum_factor, fm._modes, fm._z_1, fm._z_2, pos)), "Fourier(pos) != summate_fourier(own samples)"
+
+    rels = [("RandMeth", rel_randmeth, (1, 2, 3)), ("IncomprRandMeth", rel_incompr, (2, 3)), ("Fourier", rel_fourier, (1, 2))]
+    for cls, build, dims in rels:
+        for d in dims:
+            for npts, modes, nt in ((11, 12, None), (2, 300, 8), (1, 300, 2), (3, 300, 16)):
+                pos = g.uniform(-4, 4, size=(d, npts))
+                config.NUM_THREADS = nt
+                try:
+                    _obj, call, formula, what = build(d, modes)
+                    with np.errstate(all="ignore"):
+                        got = call(pos)
+                except Exception as e:  # noqa: BLE001  the code under test raised
+                    rep.violation("caller:%s:raises" % cls, "%s in dim %d on %d points with NUM_THREADS=%s raised %s: %s"
+                                  % (cls, d, npts, nt, type(e).__name__, e), {"kind": "caller-relation", "class": cls, "dim": d})
+                    continue
+                finally:
+                    config.NUM_THREADS = old
+                try:
+                    want = formula(pos)
+                except AttributeError as e:
+                    rep.note("generator internals renamed (%s): generator-vs-kernel relation not checked for %s" % (e, cls))
+                    break
+                except Exception as e:  # noqa: BLE001  the interpreted source fails: already reported by the kernel comparison
+                    rep.note("generator-vs-kernel relation not evaluated for %s in dim %d: the interpreted kernel raised %r" % (cls, d, e))
+                    continue
+                rep.count(1)
+                rep.traces += 1
+                if not close(got, want, 1e-12):
+                    rep.violation("caller:%s:kernel-relation" % cls,
+                                  "dim %d, %d points, %d modes, NUM_THREADS=%s: %s (interpreted current .pyx as the kernel): got %s, want %s"
+                                  % (d, npts, modes, nt, what, _short(got), _short(want)),
+                                  {"kind": "caller-relation", "class": cls, "dim": d, "seed": seed, "got": got, "want": want})
 
 
 # ---------------------------------------------------------------------------
